@@ -486,14 +486,24 @@ def merge_sides(ctx, field):
     return got if touched else {'self'}
 
 
-def raw_prefix_removed(v, param):
+def raw_prefix_removed(v, param, ctx=None, file='parser.rs', _depth=0):
     """True when the value tree `v` is derived from `param` through a step that removes the raw-identifier prefix:
-    `.replace("r#", "")`, `.trim_start_matches("r#")`, `.strip_prefix("r#")` or syn's `Ident::unraw()`."""
+    `.replace("r#", "")`, `.trim_start_matches("r#")`, `.strip_prefix("r#")` or syn's `Ident::unraw()` — directly, or inside a
+    local helper the identifier is handed to (`ident.map_or_else(.., original_name)`, `original_name(id)`)."""
     import json as _json
     if f'"root": "{param}"' not in _json.dumps(v):
         return False
     for n in vt.walk(v):
         n = vt.unvar(n) if isinstance(n, dict) else n
+        if ctx is not None and _depth < 3 and isinstance(n, dict) and (n.get('k') == 'path' or (n.get('k') == 'call' and n.get('recv') is None)):
+            nm = str(n.get('text') if n.get('k') == 'path' else n.get('f') or '').replace(' ', '').split('::')[-1]
+            gs = [g for g in ctx.astq['functions'] if g['file'].endswith(file) and g['name'].split('::')[-1] == nm and [p_ for p_ in g['params'] if p_['name'] != 'self']]
+            if len(gs) == 1:
+                g = gs[0]
+                p0 = [p_['name'] for p_ in g['params'] if p_['name'] != 'self'][0]
+                res = [g.get('tail')] + [r.get('v') for r in g.get('returns', [])]
+                if any(r is not None and raw_prefix_removed(r, p0, ctx, file, _depth + 1) for r in res):
+                    return True
         if not (isinstance(n, dict) and n.get('k') == 'call'):
             continue
         if n.get('f') == 'unraw':
